@@ -87,23 +87,31 @@ def rule_a(ck, R):
 
 
 def loop_const_invariant(paths, keyname, value):
-    """K == value holds at the loop head by induction: pre-value and every
-    loopback's final value are `value` (literally or by a path condition)"""
+    """K == value holds at the loop head by induction: the value before the loop
+    and the final value on every loopback path are `value` (literally or by a
+    path condition).  keyname 'x.f' also matches a loop-carried whole struct x."""
     ok = True
     seen = False
+    parent, _, field = keyname.rpartition('.')
     for p in paths:
         if not p.loops:
             continue
         lmap = p.loops[-1][1]
         for k, (h, pre) in lmap.items():
-            if fmt(k) != keyname:
+            if fmt(k) == keyname:
+                fk, hv, prev = k, h, pre
+            elif parent and fmt(k) == parent:
+                fk = ('f', ('&', k), field)
+                hv = sym.field_of_value(h, field)
+                prev = sym.field_of_value(pre, field) if pre is not None else None
+            else:
                 continue
             seen = True
-            if pre is not None and pre != value:
+            if prev is not None and prev != value:
                 ok = False
             if p.end == 'loopback':
-                fin = sym.mem_read(p.mem, k, h)
-                if fin == value or fin == h:
+                fin = sym.mem_read(p.mem, fk, hv)
+                if fin == value or fin == hv:
                     continue
                 if any(c == ('cmp', '==', fin, value) for c in p.cond_terms()):
                     continue
